@@ -214,10 +214,10 @@ def ChainState.appWrite (s : ChainState) (pfx tag : String) (w : Nat) : ChainSta
 
 def selfHeight (env : Env) : Height := ⟨UInt64.ofNat selfRevision, UInt64.ofNat env.nowH⟩
 
-def wrapI64 (x : Int) : Int := (x + 2 ^ 63) % 2 ^ 64 - 2 ^ 63
+def wrapI64 (x : Int) : Int := (x + 9223372036854775808) % 18446744073709551616 - 9223372036854775808
 
 /-- `uint64(time.Unix(0, int64(nanos)).Unix())` -/
-def nanosToSecsU64 (nanos : Nat) : Nat := ((wrapI64 nanos / 1000000000) % 2 ^ 64).toNat
+def nanosToSecsU64 (nanos : Nat) : Nat := ((wrapI64 nanos / 1000000000) % 18446744073709551616).toNat
 
 /-- seconds field of Go's `time.Unix(int64(T), 0)` in the internal (year-1) epoch, with int64 wrap-around -/
 def timeoutInternalSec (t : Nat) : Int := wrapI64 (wrapI64 t + unixToInternal)
@@ -693,20 +693,31 @@ def isAllowedRelayer (s : ChainState) (id : Id) (signer : String) : Bool :=
 def payloadValid (p : Payload) : Bool :=
   p.ver.trimAscii.toString ≠ "" && p.enc.trimAscii.toString ≠ "" && p.val ≠ ""
 
+/-- `packet.ValidateBasic()` of the packet constructed by `sendPacket` -/
+def packetValidV2 (payloads : List Payload) (seq tt : Nat) : Bool :=
+  !(payloads.isEmpty || !payloads.all payloadValid || seq == 0 || tt == 0)
+
+/-- the two block-time guards of `sendPacket`: `timeout.After(blockTime)` and
+    `!timeout.After(blockTime + MaxTimeoutDelta)` on Go's `time.Unix(int64(T), 0)` -/
+def v2TimeoutWindow (env : Env) (tt : Nat) : Except String Unit :=
+  let tsec := timeoutInternalSec tt
+  let bsec := blockInternalSec env
+  if tsec ≤ bsec then .error e2TimeoutElapsed else
+  if tsec > bsec + maxTimeoutDelta then .error e2InvalidTimeout else .ok ()
+
 /-- `sendPacket` -/
 def sendPacketV2 (s : ChainState) (env : Env) (src : Id) (tt : Nat) (payloads : List Payload) :
     Except String (ChainState × Nat) :=
   match s.cpV2.get src with
   | none => .error eCpNotFound
   | some (cpId, _) =>
-  let tsec := timeoutInternalSec tt
-  let bsec := blockInternalSec env
-  if tsec ≤ bsec then .error e2TimeoutElapsed else
-  if tsec > bsec + maxTimeoutDelta then .error e2InvalidTimeout else
+  match v2TimeoutWindow env tt with
+  | .error e => .error e
+  | .ok _ =>
   match s.nextSend.get src with
   | none => .error e2NSendNotFound
   | some seq =>
-  if payloads.isEmpty || !payloads.all payloadValid || seq = 0 || tt = 0 then .error e2InvalidPacket else
+  if !packetValidV2 payloads seq tt then .error e2InvalidPacket else
   let _ := cpId
   let clientId := baseClient s src
   if clientStatus s env clientId ≠ "Active" then .error eClientNotActive else
